@@ -127,7 +127,10 @@ class StateVector(np.ndarray):
 
     def __getattr__(self, name):
 
-        name = Form.alt.get(name, name)
+        # The aliases only apply to names which are not elements of the current form
+        # (e.g. 'theta' is an element of the cylindrical form and an alias in the spherical one)
+        if name not in self.form.param_names:
+            name = Form.alt.get(name, name)
 
         # Verification if the variable is available in the current form
         if name in self.form.param_names:
@@ -157,7 +160,8 @@ class StateVector(np.ndarray):
             else:
                 return propobj.fset(self, value)
         else:
-            name = Form.alt.get(name, name)
+            if name not in self.form.param_names:
+                name = Form.alt.get(name, name)
 
             # Verification if the variable is available in the current form
             if name in self.form.param_names:
